@@ -343,8 +343,7 @@ def stateful_loop(it, coll, k, n, spec, modified, body_once, env, entry, entry_v
     # inv-init: invariant holds on entry with k = 0
     ctx.prove(f"inv-init:{tag}", spec.inv(state(z3.IntVal(0), dict(env.vars), dict(ctx.heap), ctx.store)), kind="inv-init")
 
-    # state at the head of iteration k: skolem functions of k
-    ctx.loop_vars.append(k)
+    # state at the head of iteration k: skolem functions of k (k is on ctx.loop_vars already)
     hv, hh, hs = {}, {}, {}
     ctx.assume(z3.And(zint(k) >= 0, zint(k) <= zint(n)))
     for name in sorted(modified["vars"]):
@@ -393,14 +392,9 @@ def stateful_loop(it, coll, k, n, spec, modified, body_once, env, entry, entry_v
             return vars_, out
         results = ctx.explore(thunk)
     finally:
-        ctx.loop_vars.pop()
+        pass
     ctx.restore(entry)
     # by induction the invariant holds at the head of every iteration, 0 <= k <= n
-    ctx.loop_vars.append(k)
-    try:
-        pass
-    finally:
-        ctx.loop_vars.pop()
 
     def after():
         # re-assume entry link and invariant for all k, then move to the exit state k = n
